@@ -49,4 +49,16 @@ META = {
   "note": "Crash points are covered by the C06 runs, which feed the same monitor (see C06).",
   "technique": "runtime monitoring: key-path uniqueness monitor over generated histories and restores",
  },
+ "C06": {
+  "text": "Fault enumeration by runtime injection: every persistence-call boundary of every operation of five scenarios is hit with a process kill and with two failing-write errnos (plus torn stored-tx writes), and a recovery oracle is evaluated on the reopened directory. The interposer observes the calls below the process, so writes issued by the statically linked LMDB C code are included and a new write added by a change is enumerated without a new hook.",
+  "design_ref": "DESIGN.md section 5 C06, section 4.2",
+  "note": "Trusts the interposer to see every persistence call (verified against the observed sequences recorded in the evidence) and the process-death crash model.",
+  "technique": "runtime monitoring with fault injection: syscall-level crash/failing-write enumeration + recovery invariant oracle",
+ },
+ "C12": {
+  "text": "Runtime monitoring: nonce/excess freshness and cleartext-secret monitors ride on generated multi-slate histories of real wallets (raw on-disk bytes and every emitted message searched after every 40 steps); seed-file password semantics are checked against an independent decryptor; password change and phrase recovery are interrupted at every persistence call by the syscall interposer.",
+  "design_ref": "DESIGN.md section 5 C12",
+  "note": "Known open finding: the stored context keeps initial_sec_key/initial_sec_nonce unmasked (see known_findings.json).",
+  "technique": "runtime monitoring: byte-search and nonce-uniqueness monitors over histories + fault-injected seed-file operations with an independent decryptor",
+ },
 }
